@@ -3,11 +3,14 @@ from checklib import cbool, clist, cpair, cN
 
 ID = "C06"
 HARNESS = "c06"
-N_CASES = {"quick": 400, "thorough": 6000}
+N_CASES = {"quick": 360, "thorough": 6000}
 N_SEARCH = {"quick": 2, "thorough": 3}
 SHARD = 200
 HAS_MODEL_OUT = True
-RULE = ("operation histories over {acquire, use, release (3 reader slots), reload new-ok / same-ok / open-error / "
+RULE = ("[plus, classes intr-exh/intr: operations (acquire, use, release, shutdown, second reload) attempted from another "
+        "goroutine while a reload is held inside DBI.Reload, inside a backend's Close, or at the reload_locked/reload_done yield "
+        "points; the two operations are emitted in the order of their calls on the backends] "
+        "operation histories over {acquire, use, release (3 reader slots), reload new-ok / same-ok / open-error / "
         "validation-fail new / validation-fail same, reload timeout with late new / same / error completion (up to 2 "
         "pending, completion possibly delayed past further operations and out of order), shutdown} run against a real "
         "dnsserver.FBDNSDB + db.DB over instrumented fake backends: ALL guard-satisfying histories of depth 2 "
@@ -20,7 +23,10 @@ TRUSTED_BASE = [
     "real cdb/rocksdb drivers enter only through the shape of DBI.Reload's result (fresh backend / same backend / error), "
     "read off db/cdbdriver.go and db/rdbdriver.go",
     "atomicity of the modelled steps rests on reloadMu (FBDNSDB.Reload/Close exclusive, AcquireReader shared), DB.l and the "
-    "local mutex m of DB.Reload; the Go memory model is not modelled (C14's subject). The order 'goroutine publishes, then main "
+    "local mutex m of DB.Reload; it is not a theorem (the model has no lock component) but is tested differentially: "
+    "classes intr-exh/intr attempt acquire/shutdown/reload/use/release from another goroutine inside DBI.Reload, inside Close "
+    "and at the reload_locked/reload_done yield points and require the observed calls to be those of SOME sequential order "
+    "of the two operations; the Go memory model is not modelled (C14's subject). The order 'goroutine publishes, then main "
     "times out' cannot be forced from outside: it is proved in the model and only observed opportunistically (class race)",
     "refCount is modelled as an unbounded natural number for increments (uint64 cannot overflow with fewer than 2^64 held readers); "
     "the decrement wraps as in Go",
@@ -71,14 +77,14 @@ def op_coq(o):
 
 
 def events(evs):
-    return clist(["E %d %d" % (b, o) for b, o in evs])
+    return clist(["E %d %d" % (b, o) for b, o in (evs or [])])
 
 
 def to_coq(c):
     steps = []
     for s in c["steps"]:
-        obs = "(Ob %s %s %s %s %s %s %s)" % (
-            events(s["events"]), cN(s["res"]), cN(s["served"]),
+        obs = "(Ob %s %s %s %s %s %s %s %s)" % (
+            cbool(not s.get("partial", False)), events(s["events"]), cN(s["res"]), cN(s["served"]),
             clist(["Rf %d %d %s" % (b, rc, cbool(d)) for b, rc, d in s["refs"]]),
             clist(["Pn %d %d" % (sl, b) for sl, b in s["pins"]]),
             cN(s["uac"]), cN(s["dc"]))
@@ -112,9 +118,28 @@ def shrink_candidates(c):
         yield dict(c, gen=g[:i] + g[i + 1:])
 
 
+def inflight_shape(c):
+    """The resolved history breaks only the in-flight clause of the guard: a new-backend reload
+    that succeeds, or a shutdown, while a timed-out reload has not completed yet (F28)."""
+    npend, shut, hit = 0, False, False
+    for s in c["steps"]:
+        o = s["op"]
+        k = o["k"]
+        if k == "tfirst":
+            npend += 1
+        elif k == "late":
+            npend -= 1
+        elif k == "shutdown":
+            if npend > 0 and not shut:
+                hit = True
+            shut = True
+        elif k == "reload" and o.get("c") == "new" and o.get("key") and npend > 0:
+            hit = True
+    return hit
+
+
 def known_finding(c, findings):
-    # the in-flight reload race is never generated by a normal run (only with -extra inflight)
-    if c.get("class") == "inflight":
+    if not c.get("guard", True) and inflight_shape(c):
         for f in findings:
             if "in-flight" in f.get("classifier", "") or "inflight" in f.get("classifier", ""):
                 return f
